@@ -55,6 +55,16 @@ Inductive op :=
 (** ** Register file helpers *)
 Definition rg (c : ctx) (r : nat) : option id := opt_join (nth_error (regs c) r).
 Definition wrg (c : ctx) (r : nat) : option id := opt_join (nth_error (wregs c) r).
+(* register content usable where an erased Gc<'gc, ()> is required: a DynamicRootSet does not
+   expose its inner Gc, so such registers behave as empty for those ops *)
+Definition rgE (c : ctx) (r : nat) : option id :=
+  match rg c r with
+  | Some x => match get c x with
+              | Some o => match okind o with KSet => None | _ => Some x end
+              | None => Some x
+              end
+  | None => None
+  end.
 Definition set_rg (c : ctx) (r : nat) (v : option id) : ctx := set_regs c (set_nth (regs c) r v).
 Definition set_wrg (c : ctx) (r : nat) (v : option id) : ctx := set_wregs c (set_nth (wregs c) r v).
 Definition add_lic (c : ctx) (l : licence) : ctx := set_lics c (l :: lics c).
@@ -249,43 +259,52 @@ Definition micro (w : world) (ar : arena) (k : cbkind) (m : mop) : arena * list 
       let v := match wr with Some r => wrg c r | None => None end in
       if Nat.ltb i (length (rootW c)) then upd (set_root c (rootS c) (set_nth (rootW c) i v)) [0%Z] else keep
     else keep
-  | MDowngrade wr r => upd (set_wrg c wr (rg c r)) [oid (rg c r)]
+  | MDowngrade wr r =>
+    (* a DynamicRootSet does not expose its Gc, so it cannot be downgraded *)
+    match rg c r with
+    | Some x =>
+      match get c x with
+      | Some o => match okind o with KSet => keep | _ => upd (set_wrg c wr (Some x)) [oid (Some x)] end
+      | None => upd (set_ub c) SKIP
+      end
+    | None => keep
+    end
   | MUpgrade r wr =>
     match wrg c wr with
     | None => keep
-    | Some x => let '(c1, b) := upgrade c x in upd (set_rg c1 r (if b then Some x else None)) [ob b]
+    | Some x => let '(c1, b) := upgrade c x in upd (set_rg c1 r (if b then Some x else None)) [ob b; Z.of_nat x]
     end
   | MIsDropped wr =>
     match wrg c wr with
     | None => keep
-    | Some x => let '(c1, b) := is_dropped c x in upd c1 [ob b]
+    | Some x => let '(c1, b) := is_dropped c x in upd c1 [ob b; Z.of_nat x]
     end
   | MBarrierB p cr =>
-    match rg c p with
+    match rgE c p with
     | None => keep
     | Some pid =>
       match cr with
       | None => upd (gc_write c pid) [0%Z]
       | Some r =>
-        match rg c r with
+        match rgE c r with
         | None => keep
         | Some cid => upd (add_lic (backward_barrier c pid (Some cid)) (LPair pid cid)) [0%Z]
         end
       end
     end
   | MBarrierBW p wr =>
-    match rg c p, wrg c wr with
+    match rgE c p, wrg c wr with
     | Some pid, Some x => upd (add_lic (backward_barrier_weak c pid x) (LPairW pid x)) [0%Z]
     | _, _ => keep
     end
   | MBarrierF p cr =>
-    match rg c cr with
+    match rgE c cr with
     | None => keep
     | Some cid =>
       match p with
       | None => upd (add_lic (forward_barrier c None cid) (LChild cid)) [0%Z]
       | Some pr =>
-        match rg c pr with
+        match rgE c pr with
         | None => keep
         | Some pid => upd (add_lic (forward_barrier c (Some pid) cid) (LPair pid cid)) [0%Z]
         end
@@ -298,7 +317,7 @@ Definition micro (w : world) (ar : arena) (k : cbkind) (m : mop) : arena * list 
       match p with
       | None => upd (add_lic (forward_barrier_weak c None x) (LChildW x)) [0%Z]
       | Some pr =>
-        match rg c pr with
+        match rgE c pr with
         | None => keep
         | Some pid => upd (add_lic (forward_barrier_weak c (Some pid) x) (LPairW pid x)) [0%Z]
         end
@@ -342,7 +361,8 @@ Definition micro (w : world) (ar : arena) (k : cbkind) (m : mop) : arena * list 
       | Some so, Some sl =>
         match okind so with
         | KSet =>
-          if live so then
+          (* a DynamicRootSet cannot itself be stashed (its Gc is not exposed) *)
+          if live so && negb (match get c cid with Some co => kind_eqb (okind co) KSet | None => true end) then
             let c1 := add_lic (backward_barrier c sid (Some cid)) (LPair sid cid) in
             let '(sl', idx, grew) := slots_add sl in
             match get c1 sid with
@@ -350,7 +370,7 @@ Definition micro (w : world) (ar : arena) (k : cbkind) (m : mop) : arena * list 
               let st := if grew then strong so1 ++ [Some cid] else set_nth (strong so1) idx (Some cid) in
               let c2 := put c1 sid (with_strong so1 st) in
               (mkArena c2 (auid ar) (sets_put (asets ar) sid sl'),
-               set_nth (handles w) h (Some (mkHandle (auid ar) sid idx cid)), [Z.of_nat idx])
+               set_nth (handles w) h (Some (mkHandle (auid ar) sid idx cid)), [1%Z])
             | None => keep
             end
           else keep
@@ -369,7 +389,7 @@ Definition micro (w : world) (ar : arena) (k : cbkind) (m : mop) : arena * list 
         | KSet =>
           if live so then
             let ok := Nat.eqb (h_uid hd) (auid ar) && Nat.eqb (h_set hd) sid in
-            upd (if ok then set_rg c r (Some (h_ptr hd)) else c) [ob ok]
+            upd (if ok then set_rg c r (Some (h_ptr hd)) else c) [ob ok; if ok then Z.of_nat (h_ptr hd) else (-1)%Z]
           else keep
         | _ => keep
         end
@@ -379,15 +399,15 @@ Definition micro (w : world) (ar : arena) (k : cbkind) (m : mop) : arena * list 
     end
   | MIsDead r =>
     if is_finalize k then
-      match rg c r with Some x => let '(c1, b) := is_dead c x in upd c1 [ob b] | None => keep end
+      match rgE c r with Some x => let '(c1, b) := is_dead c x in upd c1 [ob b; Z.of_nat x] | None => keep end
     else keep
   | MIsDeadW wr =>
     if is_finalize k then
-      match wrg c wr with Some x => let '(c1, b) := is_dead c x in upd c1 [ob b] | None => keep end
+      match wrg c wr with Some x => let '(c1, b) := is_dead c x in upd c1 [ob b; Z.of_nat x] | None => keep end
     else keep
   | MResurrect r =>
     if is_finalize k then
-      match rg c r with Some x => upd (resurrect c x) [0%Z] | None => keep end
+      match rgE c r with Some x => upd (resurrect c x) [0%Z; Z.of_nat x] | None => keep end
     else keep
   | MResurrectW r wr =>
     if is_finalize k then
@@ -395,8 +415,8 @@ Definition micro (w : world) (ar : arena) (k : cbkind) (m : mop) : arena * list 
       | Some x =>
         match get c x with
         | None => upd (set_ub c) SKIP
-        | Some o => if live o then upd (set_rg (resurrect c x) r (Some x)) [1%Z]
-                    else upd (set_rg c r None) [0%Z]
+        | Some o => if live o then upd (set_rg (resurrect c x) r (Some x)) [1%Z; Z.of_nat x]
+                    else upd (set_rg c r None) [0%Z; Z.of_nat x]
         end
       | None => keep
       end
@@ -588,10 +608,10 @@ Definition step (w : world) (o : op) : world * result :=
             (put_arena w1 ai (Some (mkArena (actx ar) (auid ar)
                                             (sets_put (asets ar) (h_set hd) (slots_inc sl (h_idx hd))))),
              mkResult [1%Z] [])
-          else (w1, mkResult [0%Z] [])
-        | _, _ => (w1, mkResult [0%Z] [])
+          else (w1, mkResult [1%Z] [])
+        | _, _ => (w1, mkResult [1%Z] [])
         end
-      | _ => (w1, mkResult [0%Z] [])
+      | _ => (w1, mkResult [1%Z] [])
       end
     | _, _ => nop
     end
@@ -611,11 +631,11 @@ Definition step (w : world) (o : op) : world * result :=
             let '(sl', vac) := slots_dec sl (h_idx hd) in
             let c1 := if vac then put c (h_set hd) (with_strong so (set_nth (strong so) (h_idx hd) None)) else c in
             (put_arena w1 ai (Some (mkArena c1 (auid ar) (sets_put (asets ar) (h_set hd) sl'))),
-             mkResult [1%Z; ob vac] [])
-          else (w1, mkResult [0%Z] [])
-        | _, _ => (w1, mkResult [0%Z] [])
+             mkResult [1%Z] [])
+          else (w1, mkResult [1%Z] [])
+        | _, _ => (w1, mkResult [1%Z] [])
         end
-      | _ => (w1, mkResult [0%Z] [])
+      | _ => (w1, mkResult [1%Z] [])
       end
     | _ => nop
     end
